@@ -100,6 +100,16 @@ FAMILIES = {
     "rep-enum-declarators": lambda k: "enum E {" + ",".join("K%d" % i for i in range(k)) + "} " + ",".join("*e%d" % i for i in range(k)) + ";",
     "nest-atomic-struct-multi-declarator": lambda k: _nest_atomic(k),
     "rep-atomic-declarators": lambda k: "_Atomic(int *) " + ",".join("a%d" % i for i in range(k)) + ";",
+    # k specifiers in front of k declarators: every Decl gets its own IdentifierType with all k names
+    "rep-specifiers-x-declarators": lambda k: "long " * k + ",".join("a%d" % i for i in range(k)) + ";",
+    # definitions / blocks that open and close scopes: whatever a construct leaves behind (a scope, a
+    # table entry) makes every later identifier lookup dearer
+    "rep-knr-func": lambda k: "".join("int f%d(a, b) int a; char *b; { return a + %d; }\n" % (i, i) for i in range(k)),
+    "rep-knr-func-nodecls": lambda k: "".join("int f%d(a, b) { return a + %d; }\n" % (i, i) for i in range(k)),
+    "rep-func-locals": lambda k: "".join("int f%d(int x) { int y = x; { typedef int T; T z = y; return z + v; } }\n" % i for i in range(k)),
+    "rep-block": lambda k: "void f(void) {" + "{ int t = v; v = t + w; }" * k + "}",
+    "rep-struct-def": lambda k: "".join("struct S%d { int a; struct { int b; } in; } v%d;\n" % (i, i) for i in range(k)),
+    "rep-for-decl": lambda k: "void f(void) {" + "for (int i = 0; i < n; i++) v += i;" * k + "}",
     "rep-sizeof-complit": lambda k: "void f(void) {" + "n += sizeof (int[2]){1, 2};" * k + "}",
 }
 NESTING = {n for n in FAMILIES if n.startswith("nest-")}
@@ -209,6 +219,8 @@ def classify_growth(replay):
         return "F-c16-nested-abstract-params-quadratic"
     if replay["family"] in CHAIN_FAMILIES:
         return "F-c16-declarator-chain-quadratic"
+    if replay["family"] == "rep-specifiers-x-declarators":
+        return "F-c16-specifiers-times-declarators"
     return None
 
 
@@ -342,6 +354,20 @@ def run(ctx):
             if too_fast(a, b):
                 ctx.violation("work grows faster than linearly on family %s: size x%.2f (k=%d->%d) but executed lines x%.2f (%d -> %d)" % (name, ratio_size, a[1], b[1], ratio_calls, a[4], b[4]),
                               {"kind": "family", "family": name, "k": b[1], "ratio_size": ratio_size, "ratio_work": ratio_calls}, classify_growth)
+        # three sizes k, 2k, 4k: the second difference isolates a quadratic term c*k^2 whatever the
+        # linear and constant parts are (line counts are deterministic); it may not carry a quarter of
+        # the work at the largest size - this sees a quadratic term while it is still small
+        if not any(too_fast(a, b) for a, b in zip(rows, rows[1:])):
+            for a, b, c in zip(rows, rows[1:], rows[2:]):
+                if b[1] == 2 * a[1] and c[1] == 2 * b[1]:
+                    d2 = (c[4] - b[4]) - 2 * (b[4] - a[4])
+                    share = (16.0 / 6.0) * d2 / max(1, c[4])
+                    # repetition families are exactly linear on the unchanged code (share 0.000 .. 0.005);
+                    # nesting families carry the depth of the scope chain (up to 0.13)
+                    if share > (0.25 if name in NESTING else 0.03):
+                        ctx.violation("work has a quadratic component on family %s: k=%d/%d/%d executed %d/%d/%d lines; the k^2 term carries %.0f%% of the work at k=%d" % (name, a[1], b[1], c[1], a[4], b[4], c[4], 100 * share, c[1]),
+                                      {"kind": "family", "family": name, "k": c[1], "ratio_size": c[2] / max(1, b[2]), "ratio_work": c[4] / max(1, b[4])}, classify_growth)
+                        break
         if rows and rows[-1][7] > 5.0:
             ctx.violation("family %s size %d (%d characters) took %.1f s" % (name, rows[-1][1], rows[-1][2], rows[-1][7]), {"kind": "family", "family": name, "k": rows[-1][1]})
     # tick equality on every program of the pool: any construct whose token-stream traffic differs from
@@ -376,7 +402,7 @@ def run(ctx):
         if wall > limit:
             ctx.violation("lexer took %.1f s on %d characters of family %s" % (wall, size, name), {"kind": "regex-family", "family": name, "n": n})
     ctx.extra["regex_families_max_wall_s"] = round(max(w for _, _, _, w in lres), 3)
-    ctx.rule("%d scalable families (k-fold repetition of every declaration/statement kind; depth-k nesting of parentheses, casts, sizeof, calls, subscripts, initializer braces, blocks, if/else and ?: chains, pointer/array/function declarators, structs, compound literals, type names and compound literals inside array bounds, every 'type name or expression?' decision nested inside itself: sizeof / _Alignof / cast / _Alignas / offsetof / _Atomic( / _Static_assert / compound literal with and without postfix, function-pointer parameters, designators; loops, switch/case, labels) at 3-5 sizes: deterministic amount of work (source lines executed during the parse in pycparser and in every library module it calls, via sys.settrace - loops inside a function and standard-library copies count), struct / enum specifiers shared by k declarators, must grow at most ~linearly between consecutive sizes, token-stream and lexer call counts must equal the Lean model's tick counters exactly, on the families and on every program of the pool; %d adversarial literal families for the lexer regexes with wall-time margins" % (len(FAMILIES), len(REGEX_FAMILIES)))
+    ctx.rule("%d scalable families (k-fold repetition of every declaration/statement kind; depth-k nesting of parentheses, casts, sizeof, calls, subscripts, initializer braces, blocks, if/else and ?: chains, pointer/array/function declarators, structs, compound literals, type names and compound literals inside array bounds, every 'type name or expression?' decision nested inside itself: sizeof / _Alignof / cast / _Alignas / offsetof / _Atomic( / _Static_assert / compound literal with and without postfix, function-pointer parameters, designators; loops, switch/case, labels) at 3-5 sizes: deterministic amount of work (source lines executed during the parse in pycparser and in every library module it calls, via sys.settrace - loops inside a function and standard-library copies count), struct / enum specifiers shared by k declarators, must grow at most ~linearly between consecutive sizes and, over three sizes k / 2k / 4k, have no quadratic term carrying 3 percent (repetition) or 25 percent (nesting) of the work, token-stream and lexer call counts must equal the Lean model's tick counters exactly, on the families and on every program of the pool; %d adversarial literal families for the lexer regexes with wall-time margins" % (len(FAMILIES), len(REGEX_FAMILIES)))
     ctx.count(n_eval, nontrivial_n=n_eval)
     ctx.sample({"kind": "family", "name": "nest-complit-in-bound", "k": 3, "text": FAMILIES["nest-complit-in-bound"](3)})
 
@@ -392,7 +418,14 @@ def replay(ctx, payload):
         a = measure((i["family"], max(2, i["k"] // 2)))
         b = measure((i["family"], i["k"]))
         print(a[:8], b[:8])
-        return b[3] != "TIMEOUT" and not too_fast(a, b)
+        if b[3] == "TIMEOUT" or too_fast(a, b):
+            return False
+        if i["k"] % 4 == 0:
+            a0 = measure((i["family"], i["k"] // 4))
+            share = (16.0 / 6.0) * ((b[4] - a[4]) - 2 * (a[4] - a0[4])) / max(1, b[4])
+            print("quadratic share at k=%d: %.3f" % (i["k"], share))
+            return share <= (0.25 if i["family"] in NESTING else 0.03)
+        return True
     r = lex_time((i["family"], i["n"]))
     print(r)
     return r[3] < 8
